@@ -62,38 +62,38 @@ where
         if !q.is_cond() {
             rows = db.iter().map(|(_, v)| v).collect::<Vec<_>>();
         } else {
-            let mut q = q.clone();
-            for cond in q.queries_mut() {
-                for expr in cond.conds().clone().iter() {
-                    let mut result = HashSet::new();
-                    for (k, v) in db.iter() {
+            // a row is selected when every condition holds for it; an `and` condition holds
+            // when all of its expressions do, an `or` condition when at least one does
+            let conds = q.clone().queries().clone();
+            for (_, v) in db.iter() {
+                let mut selected = true;
+                for cond in conds.iter() {
+                    let mut all = true;
+                    let mut any = cond.conds().is_empty();
+                    for expr in cond.conds().iter() {
                         let prop_value = v.get(expr.key()).ok_or(ActError::Store(format!(
                             "cannot find key `{}` in {}",
                             expr.key(),
                             self.name
                         )))?;
-                        let cond_value = expr.value();
-
-                        if expr.op(prop_value, cond_value) {
-                            result.insert(k.as_bytes().to_vec().into_boxed_slice());
+                        if expr.op(prop_value, expr.value()) {
+                            any = true;
+                        } else {
+                            all = false;
                         }
                     }
-                    cond.calc(&result);
+                    let holds = match cond.r#type {
+                        CondType::And => all,
+                        CondType::Or => any,
+                    };
+                    if !holds {
+                        selected = false;
+                        break;
+                    }
                 }
-            }
-
-            let items = q.calc();
-            #[allow(unused_assignments)]
-            {
-                rows = db
-                    .iter()
-                    .filter_map(|(k, v)| {
-                        if items.contains(&k.as_bytes().to_vec().into_boxed_slice()) {
-                            return Some(v);
-                        }
-                        None
-                    })
-                    .collect::<Vec<_>>();
+                if selected {
+                    rows.push(v);
+                }
             }
         }
 
@@ -102,21 +102,9 @@ where
             rows.sort_by(|a, b| {
                 let mut ret = Ordering::Equal;
                 for (order, rev) in q.order_by() {
-                    if *rev {
-                        ret = ret.then(
-                            b.get(order)
-                                .unwrap()
-                                .to_string()
-                                .cmp(&a.get(order).unwrap().to_string()),
-                        );
-                    } else {
-                        ret = ret.then(
-                            a.get(order)
-                                .unwrap()
-                                .to_string()
-                                .cmp(&b.get(order).unwrap().to_string()),
-                        );
-                    }
+                    let (l, r) = (a.get(order).unwrap(), b.get(order).unwrap());
+                    let (l, r) = if *rev { (r, l) } else { (l, r) };
+                    ret = ret.then(compare_values(l, r));
                 }
 
                 ret
@@ -243,6 +231,22 @@ impl Expr {
                 false
             }
         }
+    }
+}
+
+/// order of two field values: numbers numerically, everything else by its text
+fn compare_values(l: &JsonValue, r: &JsonValue) -> Ordering {
+    match (l, r) {
+        (JsonValue::Number(l), JsonValue::Number(r)) => match (l.as_i64(), r.as_i64()) {
+            (Some(l), Some(r)) => l.cmp(&r),
+            _ => l
+                .as_f64()
+                .unwrap_or_default()
+                .partial_cmp(&r.as_f64().unwrap_or_default())
+                .unwrap_or(Ordering::Equal),
+        },
+        (JsonValue::String(l), JsonValue::String(r)) => l.cmp(r),
+        _ => l.to_string().cmp(&r.to_string()),
     }
 }
 
